@@ -257,6 +257,24 @@ impl Parameter {
                 return false;
             }
         }
+        // The outer braces are only removed if they match each other; i.e., if the
+        // group opened by the first token is closed by the last token.
+        // This is not the case for an argument like `{a}{b}`.
+        let mut depth = 0_usize;
+        for token in &list[..list.len() - 1] {
+            match token.value() {
+                token::Value::BeginGroup(_) => {
+                    depth += 1;
+                }
+                token::Value::EndGroup(_) => {
+                    depth -= 1;
+                    if depth == 0 {
+                        return false;
+                    }
+                }
+                _ => (),
+            }
+        }
         true
     }
 
